@@ -882,3 +882,379 @@ pub fn malformed_amz_date_beside_date(ctx: &mut Ctx, prop: &str) {
     }
     run_jobs(ctx, "VALIDATE", jobs);
 }
+
+// =============================================================================================
+// Stages added after the eighth round of seeded changes
+
+/// One `service_for_signing_key_fn` adapter object serving a history of validations while the wrapped function's answers
+/// change (key rotated, another identity, an error): every validation must reflect the answer given for *it*.
+pub fn adapter_histories(ctx: &mut Ctx, prop: &str) {
+    let mut rng = ctx.rng.fork();
+    let n = ctx.n(30, 500);
+    let pc = prop.to_lowercase();
+    for k in 0..n {
+        let mut l = simple_logical(if k % 2 == 0 { Carrier::Header } else { Carrier::Query }, T0);
+        if k % 3 != 2 {
+            l.token = Some(format!("SESSION{}", k % 4));
+        }
+        let now = now_for(&l, 0);
+        let s = sign_and_spell(&l, &mut rng, &Spelling::plain(), now);
+        let other_key: Vec<u8> = s.key.iter().map(|b| b ^ 0x5a).collect();
+        let mut hist: Vec<(Case, String)> = Vec::new();
+        // 1: the genuine answer
+        hist.push((s.case.clone(), "OK".into()));
+        // 2: the provider now hands out another key for the same lookup (rotated / revoked): the old signature must fail
+        let mut c2 = s.case.clone();
+        c2.answer = Answer::Key { key: other_key.clone(), identity: s.identity.clone() };
+        hist.push((c2, "ERR SignatureDoesNotMatch".into()));
+        // 3: the genuine key again but another identity: the returned principal must be the new one
+        let mut c3 = s.case.clone();
+        c3.answer = Answer::Key { key: s.key.clone(), identity: "bob".into() };
+        hist.push((c3, "OK".into()));
+        // 4: the provider refuses the lookup now
+        let mut c4 = s.case.clone();
+        c4.answer = Answer::Err(ProvErr::Sig("ExpiredToken"));
+        hist.push((c4, "ERR ExpiredToken".into()));
+        // 5: the same access key and scope under another session token (re-signed), answered with yet another identity
+        let mut l5 = l.clone();
+        l5.token = Some("OTHERSESSION".into());
+        let s5 = sign_and_spell(&l5, &mut rng, &Spelling::plain(), now);
+        let mut c5 = s5.case.clone();
+        c5.answer = Answer::Key { key: s5.key.clone(), identity: "carol".into() };
+        hist.push((c5, "OK".into()));
+        if k % 2 == 1 {
+            hist.swap(1, 3);
+        }
+        let cases: Vec<Case> = hist.iter().map(|h| h.0.clone()).collect();
+        let (got, calls) = match imp::validate_history_through_adapter(&cases, false) {
+            Some(x) => x,
+            None => continue,
+        };
+        for (i, ((c, want), g)) in hist.iter().zip(got.iter()).enumerate() {
+            ctx.rep.count("evaluations");
+            ctx.rep.count("evaluations.ADAPTER");
+            let mut ok = g.split(' ').take(if want.starts_with("ERR") { 2 } else { 1 }).collect::<Vec<_>>().join(" ") == *want;
+            if ok && want == "OK" {
+                if let Answer::Key { identity, .. } = &c.answer {
+                    ok = g.contains(&format!("{:?}", imp::principal_for(identity))) && g.contains(&format!("{:?}", imp::session_for(identity)));
+                }
+            }
+            if !ok {
+                fail(ctx, "ORACLE", "ADAPTER", &format!("{}-adapter-history", pc), format!("validation {} of {} through one service_for_signing_key_fn adapter: {}", i + 1, hist.len(), c.describe()), g.clone(), String::new(),
+                    format!("{} with the identity the provider function returned for this lookup", want),
+                    "C01/C14/C15: every validation consults the key provider and uses the key and identity returned for THIS request; an adapter object used for several validations must not answer from memory");
+            }
+        }
+        if calls != hist.len() {
+            fail(ctx, "ORACLE", "ADAPTER", &format!("{}-adapter-history", pc), format!("{} validations through one adapter", hist.len()), format!("{} calls of the wrapped function", calls), String::new(), format!("{} calls", hist.len()),
+                "C14: each validation that passes the pre-checks consults the provider exactly once");
+        }
+    }
+}
+
+/// Server configurations whose (region, service) concatenate to the same text: a request scoped for the first must
+/// be refused by a server configured with the second, also right after it was accepted by the first.
+pub fn colliding_configs(ctx: &mut Ctx, prop: &str) {
+    let mut rng = ctx.rng.fork();
+    let n = ctx.n(20, 300);
+    let mut jobs = Vec::new();
+    let pairs = [(("eu-west-1", "sqs"), ("eu-west-1s", "qs")), (("us", "east"), ("use", "ast")), (("local", "iam"), ("loca", "liam")), (("a", "bc"), ("ab", "c")), (("r1", "s"), ("r", "1s"))];
+    for k in 0..n {
+        let ((r1, s1), (r2, s2)) = pairs[k % pairs.len()];
+        let mut l = simple_logical(if k % 2 == 0 { Carrier::Header } else { Carrier::Query }, T0);
+        l.region = r1.into();
+        l.service = s1.into();
+        let now = now_for(&l, 0);
+        let s = sign_and_spell(&l, &mut rng, &Spelling::plain(), now);
+        jobs.push(accept_job(&s, &format!("{}-colliding-config", prop.to_lowercase()), "C03: a correctly scoped request is accepted"));
+        let mut c = s.case.clone();
+        c.region = r2.into();
+        c.service = s2.into();
+        let mut j = job(c, Expect::Refuse(Some("SignatureDoesNotMatch")), &format!("{}-colliding-config", prop.to_lowercase()), "C03: region and service are compared separately: a scope for (eu-west-1, sqs) is foreign to a server configured as (eu-west-1s, qs), also right after the former accepted it; no key lookup");
+        j.expect_calls = Some(0);
+        jobs.push(j);
+        jobs.push(accept_job(&s, &format!("{}-colliding-config", prop.to_lowercase()), "C03: a correctly scoped request is accepted"));
+    }
+    run_jobs(ctx, "VALIDATE", jobs);
+}
+
+/// Presigned-URL parameters that are not part of SigV4 verification here (`X-Amz-Expires`) next to a stale or early date:
+/// the window is ±15 minutes whatever they say.
+pub fn expires_parameter(ctx: &mut Ctx, prop: &str) {
+    let mut rng = ctx.rng.fork();
+    let n = ctx.n(40, 600);
+    let mut jobs = Vec::new();
+    for k in 0..n {
+        let mut l = simple_logical(if k % 4 == 3 { Carrier::Header } else { Carrier::Query }, T0);
+        l.query.push((b"X-Amz-Expires".to_vec(), rng.pick(&["3600", "86400", "604800", "901", "900", "60", "0", "-1", "abc"]).as_bytes().to_vec()));
+        let skew: i128 = *rng.pick(&[901i128, 1800, 3500, 86000, -901, -3000, 600_000]);
+        // server time = request time + skew seconds: positive skew = the request is that old
+        let now = now_for(&l, skew * 1_000_000_000);
+        let s = sign_and_spell(&l, &mut rng, &Spelling::plain(), now);
+        let mut j = job(s.case.clone(), Expect::Refuse(Some("SignatureDoesNotMatch")), &format!("{}-expires-parameter", prop.to_lowercase()), "C04: a request more than 15 minutes from the server time is refused before any key lookup, whatever an X-Amz-Expires parameter says");
+        j.expect_calls = Some(0);
+        jobs.push(j);
+        let now2 = now_for(&l, *rng.pick(&[0i128, 899, -899, 900, -900]) * 1_000_000_000);
+        let s2 = sign_and_spell(&l, &mut rng, &Spelling::plain(), now2);
+        jobs.push(accept_job(&s2, &format!("{}-expires-parameter", prop.to_lowercase()), "C04: inside the window the request is accepted whatever an X-Amz-Expires parameter says"));
+    }
+    run_jobs(ctx, "VALIDATE", jobs);
+}
+
+/// Query carrier with a session token: an `x-amz-security-token` *header* that a requirement covers is present and unsigned.
+pub fn unsigned_token_header(ctx: &mut Ctx, prop: &str) {
+    let mut rng = ctx.rng.fork();
+    let n = ctx.n(30, 400);
+    let mut jobs = Vec::new();
+    for k in 0..n {
+        let mut l = simple_logical(Carrier::Query, T0);
+        l.token = Some("QUERYTOKEN".into());
+        l.headers.push(("X-Amz-Security-Token".into(), if k % 2 == 0 { b"QUERYTOKEN".to_vec() } else { b"OTHER".to_vec() }));
+        let now = now_for(&l, 0);
+        let s = sign_and_spell(&l, &mut rng, &Spelling::plain(), now);
+        let mut c = s.case.clone();
+        match k % 3 {
+            0 => c.ifreq = vec!["X-Amz-Security-Token".into()],
+            1 => c.prefixes = vec!["X-Amz-".into()],
+            _ => c.prefixes = vec!["x-amz-security".into()],
+        }
+        c.vec_reqs = k % 2 == 0;
+        if s.signed_names.iter().any(|x| x == "x-amz-security-token") {
+            continue;
+        }
+        let mut j = job(c, Expect::Refuse(Some("SignatureDoesNotMatch")), &format!("{}-unsigned-token-header", prop.to_lowercase()), "C05: a header covered by an if-in-request or prefix requirement and present in the request must be signed, also the security-token header of a request whose token travels in the query string");
+        j.expect_calls = Some(0);
+        jobs.push(j);
+    }
+    run_jobs(ctx, "VALIDATE", jobs);
+}
+
+/// Security tokens with one byte >= 0x80 at every position 0..24 (raw in a header, percent-encoded in the query), and
+/// header values longer than 255 … 8192 bytes with a multi-byte character across each of those offsets; every case at
+/// both log levels.
+pub fn high_bytes_everywhere(ctx: &mut Ctx, prop: &str) {
+    let mut rng = ctx.rng.fork();
+    let mut jobs = Vec::new();
+    let pc = prop.to_lowercase();
+    for pos in 0..24usize {
+        for carrier in [Carrier::Header, Carrier::Query] {
+            let mut l = simple_logical(carrier, T0);
+            l.token = Some("TOKEN123".into());
+            let now = now_for(&l, 0);
+            let s = sign_and_spell(&l, &mut rng, &Spelling::plain(), now);
+            let mut t: Vec<u8> = b"AQoDYXdzEPTabcdefghijklmnop".to_vec();
+            t[pos] = [0xE9u8, 0xC3, 0xFF][pos % 3];
+            let mut c = s.case.clone();
+            for (nme, v) in c.headers.iter_mut() {
+                if nme.eq_ignore_ascii_case("x-amz-security-token") {
+                    *v = t.clone();
+                }
+            }
+            let enc: String = t.iter().map(|b| if *b < 0x80 { (*b as char).to_string() } else { format!("%{:02X}", b) }).collect();
+            c.uri = c.uri.replace("X-Amz-Security-Token=TOKEN123", &format!("X-Amz-Security-Token={}", enc));
+            for _ in 0..2 {
+                jobs.push(job(c.clone(), Expect::Any, &format!("{}-high-byte-token", pc), "C08: a security token with a byte >= 0x80"));
+            }
+        }
+    }
+    for &edge in &[255usize, 256, 512, 1024, 2048, 4096, 8192] {
+        for delta in 0..4usize {
+            let mut l = simple_logical(if delta % 2 == 0 { Carrier::Header } else { Carrier::Query }, T0);
+            // a value that is valid UTF-8 as a whole, with a 3-byte character starting `delta` bytes before the edge
+            let start = edge - delta;
+            let mut v: Vec<u8> = vec![b'x'; start];
+            v.extend_from_slice("€".as_bytes());
+            v.extend_from_slice(&vec![b'y'; 40]);
+            l.headers.push(("X-Amz-Meta-Long".into(), v));
+            if delta < 2 {
+                l.signed.push("x-amz-meta-long".into());
+            }
+            let now = now_for(&l, 0);
+            let s = sign_and_spell(&l, &mut rng, &Spelling::plain(), now);
+            for _ in 0..2 {
+                jobs.push(accept_job(&s, &format!("{}-long-header-value", pc), "C08/C11: a long header value with a multi-byte character across a power-of-two offset: the request validates at every log level"));
+            }
+        }
+    }
+    run_jobs(ctx, "VALIDATE", jobs);
+}
+
+/// Header names using the whole token alphabet (`_ ^ \` | ~ ! # $ % & ' * + .`), in pairs that first differ where one has a
+/// special character and the other a letter or digit: the signed-header list and the header lines are in byte order.
+pub fn token_alphabet_header_names(ctx: &mut Ctx, prop: &str) {
+    let mut rng = ctx.rng.fork();
+    let n = ctx.n(60, 900);
+    let mut jobs = Vec::new();
+    let specials = ["_", "^", "`", "|", "~", "!", "#", "$", "%", "&", "'", "*", "+", "."];
+    for k in 0..n {
+        let mut l = simple_logical(if k % 2 == 0 { Carrier::Query } else { Carrier::Header }, T0);
+        let sp = specials[k % specials.len()];
+        let other = *rng.pick(&["a", "b", "z", "0", "9", "m"]);
+        let n1 = format!("x-meta{}a", sp);
+        let n2 = format!("x-meta{}", other);
+        let n3 = format!("x-meta{}{}", other, sp);
+        for nme in [&n1, &n2, &n3] {
+            l.headers.push((nme.clone(), format!("v-{}", nme.len()).into_bytes()));
+            l.signed.push(nme.clone());
+        }
+        let now = now_for(&l, 0);
+        let mut spell = Spelling::plain();
+        spell.unsorted_signed_list = k % 3 == 0;
+        let s = sign_and_spell(&l, &mut rng, &spell, now);
+        jobs.push(accept_job(&s, &format!("{}-token-alphabet-names", prop.to_lowercase()), "C11: signed header names are ordered bytewise, for every character a header name may contain; a request signed that way was refused"));
+    }
+    run_jobs(ctx, "VALIDATE", jobs);
+}
+
+/// `canonical_request(list)` on one `CanonicalRequest` object (unstable API) for a sequence of signed-header lists,
+/// including lists whose names concatenate to the same text: each evaluation gives what a fresh object gives.
+pub fn canonical_request_histories(ctx: &mut Ctx, prop: &str) {
+    let mut rng = ctx.rng.fork();
+    let n = ctx.n(20, 300);
+    for k in 0..n {
+        let mut l = simple_logical(Carrier::Header, T0);
+        for (nme, v) in [("x-c", "1"), ("x-d", "2"), ("x-cx-d", "3"), ("x-", "4"), ("cx-d", "5"), ("x-cx", "6"), ("-d", "7")] {
+            l.headers.push((nme.to_string(), v.as_bytes().to_vec()));
+        }
+        let now = now_for(&l, 0);
+        let s = sign_and_spell(&l, &mut rng, &Spelling::plain(), now);
+        let base = vec!["host".to_string(), "x-amz-date".to_string()];
+        let variants: Vec<Vec<&str>> = vec![vec!["x-c", "x-d"], vec!["x-cx-d"], vec!["x-", "cx-d"], vec!["x-cx", "-d"], vec!["x-c"], vec![]];
+        let mut lists: Vec<Vec<String>> = Vec::new();
+        for _ in 0..(3 + k % 3) {
+            let v = rng.pick(&variants);
+            let mut li = base.clone();
+            li.extend(v.iter().map(|x| x.to_string()));
+            lists.push(li);
+        }
+        if let Some((one, fresh)) = imp::canonical_request_history(&s.case, &lists) {
+            for (i, (a, b)) in one.iter().zip(fresh.iter()).enumerate() {
+                ctx.rep.count("evaluations");
+                ctx.rep.count("evaluations.CREQHIST");
+                if a != b {
+                    fail(ctx, "ORACLE", "CREQHIST", &format!("{}-canonical-request-history", prop.to_lowercase()), format!("canonical_request on one object, lists in order: {:?}; evaluation {}", lists, i + 1), a.chars().take(400).collect(), String::new(), b.chars().take(400).collect(),
+                        "C11/C18: the canonical request is a function of the request and the signed-header list given; an object evaluated before with another list must give what a fresh object gives");
+                }
+            }
+        }
+    }
+}
+
+/// Timestamps with seconds 60/61 at 23:59 (and elsewhere), and query-carrier dates that are percent-encoded twice.
+pub fn leap_seconds_and_double_encoding(ctx: &mut Ctx, prop: &str) {
+    let mut rng = ctx.rng.fork();
+    let mut jobs = Vec::new();
+    let pc = prop.to_lowercase();
+    let bad = ["20150830T235960Z", "20150830T235961Z", "2015-08-30T23:59:60Z", "2015-08-30T23:59:60.5+05:30", "20150630T235960Z", "20151231T235960Z", "20150830T123660Z", "20150830T225960Z", "20150830T235860Z"];
+    for (k, b) in bad.iter().enumerate() {
+        for carrier in [Carrier::Header, Carrier::Query] {
+            let l = simple_logical(carrier.clone(), T0);
+            let now = now_for(&l, 0);
+            let s = sign_and_spell(&l, &mut rng, &Spelling::plain(), now);
+            let mut c = s.case.clone();
+            for (nme, v) in c.headers.iter_mut() {
+                if nme.eq_ignore_ascii_case("x-amz-date") {
+                    *v = b.as_bytes().to_vec();
+                }
+            }
+            let enc: String = b.bytes().map(|x| if x.is_ascii_alphanumeric() || x == b'-' || x == b'.' { (x as char).to_string() } else { format!("%{:02X}", x) }).collect();
+            c.uri = c.uri.replace("X-Amz-Date=20150830T123600Z", &format!("X-Amz-Date={}", enc));
+            let _ = k;
+            let mut j = job(c, Expect::Refuse(Some("IncompleteSignature")), &format!("{}-second-60", pc), "C16: seconds 60/61 pass the pattern but are not a time of day: the ISO-8601 format error (400), at 23:59 as anywhere else");
+            j.expect_calls = Some(0);
+            jobs.push(j);
+        }
+    }
+    // a well-formed timestamp percent-encoded twice in the query string: decoded once it still contains `%` and is no timestamp
+    for t in ["20150830T123600Z", "2015-08-30T12:36:00Z", "20150830T133600+0100"] {
+        let l = simple_logical(Carrier::Query, T0);
+        let now = now_for(&l, 0);
+        let s = sign_and_spell(&l, &mut rng, &Spelling::plain(), now);
+        let once: String = t.bytes().map(|x| if x.is_ascii_alphanumeric() { (x as char).to_string() } else { format!("%{:02X}", x) }).collect();
+        let all_once: String = t.bytes().map(|x| format!("%{:02X}", x)).collect();
+        for once in [once, all_once] {
+            let twice = once.replace('%', "%25");
+            let mut c = s.case.clone();
+            c.uri = c.uri.replace("X-Amz-Date=20150830T123600Z", &format!("X-Amz-Date={}", twice));
+            if c.uri == s.case.uri {
+                continue;
+            }
+            let mut j = job(c, Expect::Refuse(Some("IncompleteSignature")), &format!("{}-double-encoded-date", pc), "C16: a query-carrier date is percent-decoded once; a value that still contains escapes is not a timestamp (400)");
+            j.expect_calls = Some(0);
+            jobs.push(j);
+        }
+    }
+    run_jobs(ctx, "VALIDATE", jobs);
+}
+
+/// Authorization lists with empty items (`,,`, `, ,`, `,\t,`) in the middle, followed by a repetition of a parameter: the
+/// last occurrence counts, whatever gaps the list has.
+pub fn empty_auth_items(ctx: &mut Ctx, prop: &str) {
+    let mut rng = ctx.rng.fork();
+    let n = ctx.n(40, 600);
+    let mut jobs = Vec::new();
+    let bad_sig = "0123456789abcdef0123456789abcdef0123456789abcdef0123456789abcdef";
+    for k in 0..n {
+        let l = simple_logical(Carrier::Header, T0);
+        let now = now_for(&l, 0);
+        let s = sign_and_spell(&l, &mut rng, &Spelling::plain(), now);
+        let gap = [",,", ", ,", ",\t,", ",, ,", " , , "][k % 5];
+        for good_last in [true, false] {
+            let mut c = s.case.clone();
+            for (nme, v) in c.headers.iter_mut() {
+                if nme.eq_ignore_ascii_case("authorization") {
+                    let t = String::from_utf8_lossy(v).to_string();
+                    let t2 = if good_last {
+                        // a bogus signature first, the gap, then the good one: accepted
+                        format!("{}{} Signature={}", t.replace(&s.signature, bad_sig), gap, s.signature)
+                    } else {
+                        format!("{}{} Signature={}", t, gap, bad_sig)
+                    };
+                    *v = t2.into_bytes();
+                }
+            }
+            if good_last {
+                jobs.push(accept_job_case(c, &s, &format!("{}-empty-auth-items", prop.to_lowercase()), "C19: of a parameter repeated inside the Authorization header the last occurrence counts, also behind empty list items"));
+            } else {
+                let mut j = job(c, Expect::Refuse(Some("SignatureDoesNotMatch")), &format!("{}-empty-auth-items", prop.to_lowercase()), "C19: of a parameter repeated inside the Authorization header the last occurrence counts, also behind empty list items");
+                j.expect_calls = Some(1);
+                jobs.push(j);
+            }
+        }
+    }
+    run_jobs(ctx, "VALIDATE", jobs);
+}
+
+/// Folding on, a form content type with an unsupported / malformed charset, and an EMPTY body: the charset is refused
+/// (400) before anything else is looked at, as for a non-empty body.
+pub fn empty_body_bad_charset(ctx: &mut Ctx, prop: &str) {
+    let mut rng = ctx.rng.fork();
+    let mut jobs = Vec::new();
+    let cts = ["application/x-www-form-urlencoded; charset=bogus-9", "application/x-www-form-urlencoded; charset=", "application/x-www-form-urlencoded;charset=\"utf-8\"", "application/x-www-form-urlencoded; charset=utf-99; charset=utf-8"];
+    for (k, ct) in cts.iter().enumerate() {
+        for variant in 0..6 {
+            let mut l = simple_logical(if (k + variant) % 2 == 0 { Carrier::Header } else { Carrier::Query }, T0);
+            l.method = "POST".into();
+            l.fold = true;
+            l.content_type = Some(ct.to_string());
+            l.form = Some(Vec::new());
+            let now = now_for(&l, 0);
+            let s = sign_and_spell(&l, &mut rng, &Spelling::plain(), now);
+            let mut c = s.case.clone();
+            c.body.clear();
+            // in front of later defects as well
+            match variant {
+                1 => { let bad: String = s.signature.chars().rev().collect(); set_signature(&mut c, &s.signature, &bad); }
+                2 => c.region = "elsewhere".into(),
+                3 => c.now = (c.now.0 + 5000, 0),
+                4 => c.answer = Answer::Err(ProvErr::Sig("InvalidClientTokenId")),
+                5 => c.headers.retain(|(n, _)| !n.eq_ignore_ascii_case("authorization")),
+                _ => {}
+            }
+            let mut j = job(c, Expect::Refuse(Some("InvalidBodyEncoding")), &format!("{}-empty-body-bad-charset", prop.to_lowercase()), "C12/C13: a form request whose charset is unknown is refused as an invalid body encoding (400) when folding is on — also when the body is empty — ahead of every later check");
+            j.expect_calls = Some(0);
+            jobs.push(j);
+        }
+    }
+    run_jobs(ctx, "VALIDATE", jobs);
+}
